@@ -8,16 +8,18 @@ TRUSTED = [
 ]
 ASSUME = [
     "distinct topics have disjoint derived keys sha256(t), sha256(sha256(t)) except by SHA-256 collision and except for the constructed pair of known finding KF-C12-derived-topic",
-    "silent mode: the message box keeps a finished topic marked as started until it expires, so early messages of a later session on the same topic bypass the buffer (observation from reading; the histories here run in loud mode with a gated synchroniser)",
+    "silent mode: the message box keeps a finished topic marked as started until it expires, so early messages of a later session on the same topic bypass the buffer: known finding KF-C12-silent-reuse, reproduced by component reuse on every run (the orch histories run in loud mode with a gated synchroniser)",
     "the participant filter and the dispatch path are C02/C03's subject",
 ]
 
 def main():
     c = Check("C12")
-    c.prove(gen=["stmts"])
+    c.prove(gen=["stmts"], modules=["TSSVerif.Props.C12", "TSSVerif.Props.C12Box"])
     c.correspond("orch")
+    c.correspond("reuse")
     return c.finish(
-        rule="histories of 3..7 calls on one real Scheme: KeyGen (1 in 4) and Sign on a pool of 3 topics, each driven along one of 5 (KeyGen) / 7 (Sign) exit paths chosen by the PRNG, with a second concurrent Sign on the same topic one time in three "
+        rule="reuse: silent mode, full stack, n=2: a staggered Sign on a fresh topic (control), a first Sign on a topic, then a second, staggered Sign on the same topic (known finding KF-C12-silent-reuse). "
+             "orch: histories of 3..7 calls on one real Scheme: KeyGen (1 in 4) and Sign on a pool of 3 topics, each driven along one of 5 (KeyGen) / 7 (Sign) exit paths chosen by the PRNG, with a second concurrent Sign on the same topic one time in three "
              "(must be refused and change nothing), late and foreign SYNC/MPC traffic after every session (must reach no backend), re-use of topics across the history (must be admitted). Each table action is one operation line; at every stable point "
              "the key sets of the three tables and dkgRunning are compared with the model. Plus the constructed derived-topic pair. Non-trivial = every action line.",
         trusted=TRUSTED, assumptions=ASSUME)
